@@ -17,6 +17,7 @@ EXPLANATION = (
     "helpers count: tracking is interprocedural), or when the concrete configuration raises that exception.  Sibling entry points of the "
     "three factorisations must reject the same corruptions, and the strategy/routine suitability warnings must be emitted exactly for the "
     "documented unsuitable pairings."
+    "  Rows added after an audit of the unchanged tree: standard-deviation containers that do not match the mean container, zeroth-order constraints on states with too few Taylor coefficients, dense log-densities of data of the wrong shape, exponential priors whose drift output does not match the state, and the single-output escape hatch of the residual error estimate (evaluated under the declared corruption)."
 )
 LEVEL = "other"
 TECHNIQUE = "abstract interpretation over the AST with path-sensitive must-pass-through guard tracking (interprocedural), exhaustive guard table, sibling cross-check"
